@@ -318,6 +318,7 @@ type frame struct {
 	isFn     bool // block that is a function body
 	member   []tok // class body: tokens of the current member so far
 	sawArrow bool  // an "=>" was seen in the current statement of this frame
+	openIdx  int   // index of the opening token
 }
 
 var notFnParenKeywords = map[string]bool{"if": true, "for": true, "while": true, "switch": true, "catch": true, "with": true, "await": true}
@@ -340,6 +341,7 @@ func (d *detector) analyse(toks []tok) {
 		return false
 	}
 	pendingClass := false
+	pendingClassDepth := 0
 	var lastParenPre string // pre of the most recently closed paren frame
 	privKinds := map[string]string{}
 	// pre-pass: private declarations inside class bodies are classified below; usages
@@ -479,6 +481,7 @@ func (d *detector) analyse(toks []tok) {
 			case "class":
 				d.add("Class")
 				pendingClass = true
+				pendingClassDepth = len(stack)
 			case "async":
 				if !next.nlBefore && (next.k == tIdent && next.s != "in" && next.s != "of" && next.s != "instanceof" || next.s == "(" && d.arrowFollows(toks, i+1) || next.s == "*" || next.k == tPrivate ||
 					((f.kind == fObject) && (next.s == "[" || next.k == tString || next.k == tNumber))) {
@@ -606,7 +609,12 @@ func (d *detector) analyse(toks []tok) {
 				case fBracket:
 					d.add("ArraySpread")
 				case fParen:
-					d.add("RestArgument") // or a call spread: both ES2015
+					// parameter list (followed by "{" or "=>") or call arguments
+					if d.closerFollowedBy(toks, f.openIdx, "{") || d.closerFollowedBy(toks, f.openIdx, "=>") {
+						d.add("RestArgument")
+					} else {
+						d.add("ArraySpread")
+					}
 				}
 			case "?":
 				f.ternary++
@@ -638,7 +646,7 @@ func (d *detector) analyse(toks []tok) {
 					f.member = append(f.member, t)
 				}
 			case "(":
-				nf := &frame{kind: fParen, pre: prev.s}
+				nf := &frame{kind: fParen, pre: prev.s, openIdx: i}
 				if prev.k != tIdent && prev.k != tPrivate {
 					nf.pre = ""
 				}
@@ -663,7 +671,7 @@ func (d *detector) analyse(toks []tok) {
 			case "{":
 				nf := &frame{kind: fBlock}
 				switch {
-				case pendingClass && f.kind != fParen:
+				case pendingClass && len(stack) == pendingClassDepth:
 					nf.kind = fClass
 					pendingClass = false
 				case atClassLevel && len(f.member) == 1 && f.member[0].s == "static":
@@ -740,6 +748,24 @@ func (d *detector) anyArrow(stack []*frame) bool {
 	for _, f := range stack {
 		if f.sawArrow {
 			return true
+		}
+	}
+	return false
+}
+
+func (d *detector) closerFollowedBy(toks []tok, i int, what string) bool {
+	depth := 0
+	for j := i; j < len(toks); j++ {
+		if toks[j].k == tPunct {
+			switch toks[j].s {
+			case "(", "[", "{":
+				depth++
+			case ")", "]", "}":
+				depth--
+				if depth == 0 {
+					return j+1 < len(toks) && toks[j+1].k == tPunct && toks[j+1].s == what
+				}
+			}
 		}
 	}
 	return false
